@@ -1,0 +1,41 @@
+package kongutil
+
+import (
+	"fmt"
+	"os"
+	"reflect"
+
+	"github.com/alecthomas/kong"
+)
+
+// ServeDirMapper is a replacement of kong's "existingdir" for values that may come from any source.
+// Built-in mapper skips both the check and the assignment when value was provided not by command line
+// (i.e. by configuration file), leaving target empty.
+var ServeDirMapper = kong.NamedMapper("servedir", kong.MapperFunc(serveDirMapper))
+
+func serveDirMapper(dctx *kong.DecodeContext, target reflect.Value) error {
+	if target.Kind() != reflect.String {
+		return fmt.Errorf("\"servedir\" can only be used with string")
+	}
+
+	var path string
+	err := dctx.Scan.PopValueInto("dir", &path)
+	if err != nil {
+		return err
+	}
+
+	path = kong.ExpandPath(path)
+
+	stat, err := os.Stat(path)
+	if err != nil {
+		return err
+	}
+
+	if !stat.IsDir() {
+		return fmt.Errorf("%q exists but is not a directory", path)
+	}
+
+	target.SetString(path)
+
+	return nil
+}
